@@ -11,7 +11,12 @@
 (*                    better[t][j] = Better(reps[t], reps[run[j]])          *)
 (*   "search" lines  DescriptorListSearch / GetPlatformDesc on a list of    *)
 (*                    target positions (0 = entry without platform) for the *)
-(*                    host of line hl; res = chosen list index, 0 = none    *)
+(*                    host of line hl; res = chosen list index, 0 = none;   *)
+(*                    api "DescriptorListSearch+<filter>": searched with an *)
+(*                    artifact type / annotation / sort option next to the  *)
+(*                    platform: entries that do not pass the filter (the    *)
+(*                    driver's own evaluation) are 0 in `list`, fpass = 0   *)
+(*                    when the chosen entry is one of them                  *)
 (* The monitor has no state besides the position and the latched verdict:  *)
 (* every obligation is a predicate over the current line (and the lines it *)
 (* refers to), evaluated with the reference model Platform.tla.            *)
@@ -72,6 +77,7 @@ SearchBad(e) ==
       Runs == {i \in 1..Len(L) : L[i] # 0 /\ L[i] \in RS}
   IN First(<<
        <<he.ev # "host" \/ he.h # e.h, "tooling:search-host-line">>,
+       <<e.fpass = 0, "filter: the chosen entry does not pass the requested filter">>,
        <<e.res = 0 /\ Runs # {}, "found: a runnable entry exists but none was returned">>,
        <<e.res # 0 /\ e.res \notin Runs, "runnable: the chosen entry cannot run on the requested platform">>,
        <<e.res # 0 /\ e.res \in Runs /\ \E i \in Runs : Bt(L[i], L[e.res]), "best: a strictly better entry was passed over">>,
